@@ -6,7 +6,7 @@ package perio
 import "time"
 
 // VerifTick queues exactly what a PERIOGroup's ticker goroutine queues when it fires (server.go:66-70).
-// The event channel is FIFO, so the tick is handled after every Add/Del issued before it.
+// The event queue is FIFO, so the tick is handled after every Add/Del issued before it.
 func (s *Server) VerifTick(period time.Duration) {
-	s.evtCh <- Event{eType: TYPE_PERIO_TIMEOUT, period: period}
+	s.evtQ.put(Event{eType: TYPE_PERIO_TIMEOUT, period: period})
 }
